@@ -281,7 +281,23 @@ def check_roles(prog, rep):
         out = []
         for sm in P_.of(g):
             r = lambda n: strip_refs(caps[n[1]]) if n[0] == "upvar" and n[1] < len(caps) else None
-            out.append(([tuple(subst(x, r) if isinstance(x, tuple) and x and isinstance(x[0], str) and x[0] not in ("not", "any") else x for x in fct) for fct in sm.facts], subst(sm.ret, r), sm.effects))
+            facts = [tuple(subst(x, r) if isinstance(x, tuple) and x and isinstance(x[0], str) and x[0] not in ("not", "any") else x for x in fct) for fct in sm.facts]
+            ret = subst(sm.ret, r)
+            # `colour == BinaryColor::On` (the derived == on the two-variant glyph colour) returned as a value: the
+            # same two cases as `match colour { On => true, Off => false }`
+            rr = strip_refs(ret)
+            if rr[0] == "bin" and rr[1] in ("Eq", "Ne"):
+                ops = [strip_refs(rr[2]), strip_refs(rr[3])]
+                lit = [o for o in ops if o[0] == "agg" and str(o[1]).rsplit("::", 1)[0].endswith("BinaryColor") and not o[2]]
+                oth = [o for o in ops if o not in lit]
+                if len(lit) == 1 and len(oth) == 1:
+                    v = str(lit[0][1]).rsplit("::", 1)[1]
+                    w = "Off" if v == "On" else "On"
+                    eq = rr[1] == "Eq"
+                    out.append((facts + [("variant", oth[0], (v,))], ("const", eq), sm.effects))
+                    out.append((facts + [("variant", oth[0], (w,))], ("const", not eq), sm.effects))
+                    continue
+            out.append((facts, ret, sm.effects))
         return out
 
     def colour_of(t):
